@@ -288,6 +288,10 @@ func checkC14(c *Check) {
 	}
 	c.Cond(okSel && nV1 == 2, key+":selection", p.Pos(respVal.Pos()), "selected = vals[0] | vals[1] (Kind Int edge / is-an-error edge) | none", "the selected value does not follow the table: "+why)
 
+	// ---- R5 the status the table sends is recorded
+	c.Rule("R5", "shared with C13 (R1, R2, R6)", "a status handed to the response writer reaches the client once and is recorded, so Written() turns true and the chain stops: no class of status codes bypasses the bookkeeping", 8)
+	c.Share("C13", []string{"R1", "R2", "R6"}, 8)
+
 	// ---- R3 fast path equals reflective path
 	c.Rule("R3", "E6 (shared with C04.R4)", "the built-in fast path for func() (int, string) returns [ValueOf(r0), ValueOf(r1)] in declaration order", 1)
 	if t := p.Named("flamego", "teapotInvoker"); t != nil {
